@@ -574,8 +574,8 @@ Lemma apply_async_cases : forall s ln la s',
   (ln = "accepted" /\ exists fd, la = [AInt fd] /\
      s' = set_flag (enqueue (new_state s (mkConn fd false false [] [] [] false true)) false
                             (TRegister (l_next s) false)) true) \/
-  (ln = "enroll" /\ exists fd udp, la = [AInt fd; AInt udp] /\
-     s' = set_flag (enqueue (new_state s (mkConn fd false false [] [] [] (udp =? 1) false)) true
+  ((ln = "enroll" \/ ln = "dial") /\ exists fd udp b, la = [AInt fd; AInt udp] /\
+     s' = set_flag (enqueue (new_state s (mkConn fd false false [] [] [] (udp =? 1) false)) b
                             (TRegister (l_next s) true)) true).
 Proof.
   intros s ln la s' H.
@@ -603,15 +603,20 @@ Proof.
       destruct la as [|[fd|b|k] la]; try discriminate. destruct la; try discriminate.
       cbv beta iota zeta delta [apply_async] in H. inversion H. eexists. split; reflexivity.
     + destruct (String.eqb_spec ln "enroll") as [->|N3].
-      * right. right. split; [reflexivity|].
+      * right. right. split; [left; reflexivity|].
         destruct la as [|[fd|b|k] la]; try discriminate.
         destruct la as [|[udp|b|k] la]; try discriminate. destruct la; try discriminate.
-        cbv beta iota zeta delta [apply_async] in H. inversion H. eexists _, _. split; reflexivity.
+        cbv beta iota zeta delta [apply_async] in H. inversion H. eexists _, _, _. split; reflexivity.
       * destruct (String.eqb_spec ln "stop") as [->|N4].
         -- left. split; [auto|]. destruct la; try discriminate.
            cbv beta iota zeta delta [apply_async] in H. inversion H. eexists _, _. split; [|reflexivity]. reflexivity.
-        -- exfalso. assert (Hn : apply_async s (ln, la) = None) by (unfold apply_async; sdef ln).
-           congruence.
+        -- destruct (String.eqb_spec ln "dial") as [->|N5].
+           ++ right. right. split; [right; reflexivity|].
+              destruct la as [|[fd|b|k] la]; try discriminate.
+              destruct la as [|[udp|b|k] la]; try discriminate. destruct la; try discriminate.
+              cbv beta iota zeta delta [apply_async] in H. inversion H. eexists _, _, _. split; reflexivity.
+           ++ exfalso. assert (Hn : apply_async s (ln, la) = None) by (unfold apply_async; sdef ln).
+              congruence.
 Qed.
 
 Lemma RelQ_async : forall L P N q c s l s',
@@ -621,16 +626,18 @@ Proof.
   intros L P N q [m cs] s [ln la] s' HR Ha.
   destruct (pstep_in m cs (ln, la)) as [cs' [Hfd Hp]].
   exists (m, cs'). split; [exact Hp|]. cbn [fst].
-  destruct (apply_async_cases _ _ _ _ Ha) as [[Hl [b [t [Ht ->]]]]|[[-> [fd [-> ->]]]|[-> [fd [udp [-> ->]]]]]].
+  destruct (apply_async_cases _ _ _ _ Ha) as [[Hl [b [t [Ht ->]]]]|[[-> [fd [-> ->]]]|[Hl [fd [udp [b [-> ->]]]]]]].
   - assert (cs' = cs).
-    { rewrite fd_in_other in Hfd; [congruence| | |]; destruct Hl; subst; discriminate. }
+    { rewrite fd_in_other in Hfd; [congruence| | | |]; destruct Hl; subst; discriminate. }
     subst cs'. split; [|split; [reflexivity|apply frame_queues, frame_refl]].
     apply RelQ_set_flag, RelQ_enqueue; auto.
   - rewrite fd_in_accepted in Hfd. inversion Hfd; subst cs'.
     split; [|split; [reflexivity|apply frame_queues, frame_new_conn]].
     apply RelQ_set_flag, RelQ_enqueue_reg.
     apply (RelQ_newconn_fresh L P N q m cs s (mkConn fd false false [] [] [] false true)); auto.
-  - rewrite fd_in_enroll in Hfd. inversion Hfd; subst cs'.
+  - assert (Hfd' : Some cs' = Some (if f_dead cs then cs else fresh_fd cs fd)).
+    { rewrite <- Hfd. destruct Hl; subst ln; [apply fd_in_enroll|apply fd_in_dial]. }
+    inversion Hfd'; subst cs'.
     split; [|split; [reflexivity|apply frame_queues, frame_new_conn]].
     apply RelQ_set_flag, RelQ_enqueue_reg.
     apply (RelQ_newconn_fresh L P N q m cs s (mkConn fd false false [] [] [] (udp =? 1) false)); auto.
